@@ -48,6 +48,8 @@ def cases(tier, seed):
                 "kq": rnd.choice(KQ) if i % 4 else None, "bq": rnd.choice(BQ) if i % 4 else None, "aq": rnd.choice(AQ),
                 "var": rnd.choice([1e-6, 1e-3, 1.0, 1e3]), "gamma": rnd.choice(["normal", "zero_first", "tiny", "large", "negative"]),
                 "mu": rnd.choice([1.0, 30.0])})
+    if i % 9 == 0:      # a very small batch-norm epsilon with a nearly dead channel: var + eps far below 1e-7 is still var + eps
+      out[-1].update(eps=1e-10, var=1e-9, gamma="tiny", mu=1e-3)
   n_model = 24 if tier == "quick" else 300
   for i in range(n_model):
     out.append({"part": "model", "mseed": rnd.randrange(1 << 30)})
@@ -69,7 +71,7 @@ def run_layer(c, ctx):
   unq = c["kq"] is None and c["bq"] is None
   kw = dict(kernel_size=(c["k"], c["k"]), strides=(c["stride"],) * 2, padding=c["pad"], dilation_rate=c["dil"],
             use_bias=c["use_bias"], folding_mode=c["mode"], bias_quantizer=c["bq"], activation=c["aq"] if not unq else None,
-            center=c["center"], scale=c["scale"], epsilon=1e-3)
+            center=c["center"], scale=c["scale"], epsilon=c.get("eps", 1e-3))
 
   def mk():
     if cls == "conv":
@@ -91,7 +93,7 @@ def run_layer(c, ctx):
     pass
   bn = l.batchnorm
   C = int(bn.moving_mean.shape[0])
-  var = (c["var"] * np.abs(rs.normal(0, 1, C)) + 1e-7).astype(np.float32)
+  var = (c["var"] * np.abs(rs.normal(0, 1, C)) + (1e-7 if c["var"] > 1e-8 else 1e-11)).astype(np.float32)
   gam = rs.normal(0, 1, C).astype(np.float32)
   if c["gamma"] == "zero_first":
     gam[0] = 0.0
